@@ -48,7 +48,8 @@ REAL_EXTRA = ["Numba 0.60 + llvmlite (real JIT compilation and real on-disk cach
 ASSUMPTIONS = {
     "C08": ["helper x dtype domain = combinations both paths accept (datetime columns: no "
             "mean/median/quantile/std/var/sum)",
-            "floats compared with rtol=1e-9, atol=1e-12; everything else exactly, incl. result dtype",
+            "floats compared with rtol=1e-9, atol=1e-12 (rtol=1e-4 for float32/float16 input, where one "
+            "path may accumulate in the input's precision); everything else exactly, incl. result dtype",
             "under an injected cache fault or crash the accelerated call may raise (fail loudly) or "
             "recompile; it must never return different data",
             "a lifetime in which dataiter disabled Numba at import (corrupt cache index) is skipped",
@@ -225,7 +226,26 @@ def gen_world(rng, tier):
                                                     "torn_data"])}
         ops.append(boot)
         for _ in range(ncalls):
-            ops.append(gen_call(r, cfg, hid, pool))
+            c = gen_call(r, cfg, hid, pool)
+            ops.append(c)
+            if r.random() < 0.3 and "z" not in c["cols"]:
+                # macro: the caller keeps the helper objects and applies them to the next frame of
+                # the same type whose missing-value pattern differs (state remembered by a helper
+                # closure from the previous frame must not matter)
+                n = len(c["g"])
+                na2 = "some" if c["na_mode"] in ("none",) else "none"
+                c2 = {"ev": "call", "g": list(c["g"]), "dtype": c["dtype"], "na_mode": na2,
+                      "cols": {"x": {"dtype": c["dtype"],
+                                     "values": gen_values(r, c["dtype"], n, c["g"], na2)}},
+                      "helpers": [dict(h, reuse=True) for h in c["helpers"]]}
+                ops.append(c2)
+                # ... and back, so that every macro contains a complete -> missing transition
+                c3 = {"ev": "call", "g": list(c["g"]), "dtype": c["dtype"], "na_mode": c["na_mode"],
+                      "cols": {"x": {"dtype": c["dtype"],
+                                     "values": gen_values(r, c["dtype"], n, c["g"],
+                                                          "some" if na2 == "none" else "none")}},
+                      "helpers": [dict(h, reuse=True) for h in c["helpers"]]}
+                ops.append(c3)
     return {"config": cfg, "ops": ops}
 
 
@@ -327,8 +347,11 @@ def run_lifetime(cache, boot, calls, timeout=600, mode="both"):
     return rc, events, err
 
 
-def close(a, b):
+def close(a, b, narrow=False):
     if isinstance(a, float) and isinstance(b, float):
+        if narrow:
+            # float32/float16 input: one path may accumulate in the input's precision
+            return math.isclose(a, b, rel_tol=1e-4, abs_tol=1e-6)
         return math.isclose(a, b, rel_tol=1e-9, abs_tol=1e-12)
     return type(a) is type(b) and a == b
 
@@ -399,7 +422,7 @@ def compare(call, rec, lifetime_faulty, world_faulty):
                         f"{a['values']} vs Numba {b['values']}; x={call['cols'][(h or {}).get('col') or 'x']['values']} "
                         f"g={call['g']}"))
             continue
-        if not all(close(x, y) for x, y in zip(a["values"], b["values"])):
+        if not all(close(x, y, dtype in NARROW) for x, y in zip(a["values"], b["values"])):
             out.append((f"C08.values|{where}", f"{fn}({dtype}, {kw}) values differ: Python "
                         f"{a['values']} vs Numba {b['values']}; x={call['cols'][(h or {}).get('col') or 'x']['values']} "
                         f"g={call['g']}"))
